@@ -1,12 +1,14 @@
 #!/bin/bash
 # tools/try_seed_wt.sh <seed-dir-or-id> <Cxx>...: apply a seeded change in a scratch worktree of /repo (never /repo itself),
+# (SEED_TAG=<tag> gives a private worktree /tmp/wt_<tag> so that several seeds can be tried at once)
 # run the quick checks against it (VERIF_REPO/VERIF_WORK), undo it.  Remove with: tools/mutcamp.py --clean seedwt
 S=$1; shift
 [ -d "$S" ] || S=/tmp/seed_out/$S
-W=/tmp/wt_seedwt
+TAG=${SEED_TAG:-seedwt}
+W=/tmp/wt_$TAG
 [ -d $W ] || git -C /repo worktree add --detach $W HEAD -q
 git -C $W checkout -q -- . ; git -C $W checkout -q --detach $(git -C /repo rev-parse HEAD)
 git -C $W apply $S/patch.diff || { echo "patch does not apply"; exit 2; }
-export VERIF_REPO=$W VERIF_WORK=/tmp/work_seedwt
+export VERIF_REPO=$W VERIF_WORK=/tmp/work_$TAG
 for p in "$@"; do VERIF_WORKERS=${VERIF_WORKERS:-6} /verif/check $p --tier quick 2>&1 | grep -a "VIOLATION\|  class\|quick:\|KNOWN\|FAILED\|rror" | cut -c1-300; done
 git -C $W checkout -q -- .
